@@ -5,11 +5,14 @@ D=$(realpath "$1")
 W=$(mktemp -d /tmp/mtv_seedconf.XXXXXX)
 git -C /repo worktree add --detach -f "$W" HEAD >/dev/null 2>&1 || { echo "worktree failed"; exit 2; }
 trap 'git -C /repo worktree remove --force "$W" >/dev/null 2>&1; rm -rf "$W"' EXIT
-cp "$D/demo.py" "$W/seed_demo.py"
-(cd "$W" && PYTHONPATH="$W" timeout 600 /venv/bin/python seed_demo.py >/tmp/mtv_seed_clean.out 2>&1); rc_clean=$?
+# where the demonstration expects to live inside the worktree (round-1 seeds: the root; round-2 seeds: _seed/demo.py)
+DP=$(cat "$D/demo_path" 2>/dev/null || echo seed_demo.py)
+mkdir -p "$W/$(dirname "$DP")"
+cp "$D/demo.py" "$W/$DP"
+(cd "$W" && PYTHONPATH="$W" timeout 600 /venv/bin/python "$DP" >/tmp/mtv_seed_clean.out 2>&1); rc_clean=$?
 git -C "$W" apply "$D/patch.diff" || { echo "PATCH DOES NOT APPLY"; exit 2; }
 /verif/tools/baseline.sh "$W"; rc_base=$?
-(cd "$W" && PYTHONPATH="$W" timeout 600 /venv/bin/python seed_demo.py >/tmp/mtv_seed_mut.out 2>&1); rc_mut=$?
+(cd "$W" && PYTHONPATH="$W" timeout 600 /venv/bin/python "$DP" >/tmp/mtv_seed_mut.out 2>&1); rc_mut=$?
 echo "demo on clean: rc=$rc_clean ($(tail -1 /tmp/mtv_seed_clean.out))"
 echo "suite with patch: rc=$rc_base"
 echo "demo with patch: rc=$rc_mut ($(tail -1 /tmp/mtv_seed_mut.out | cut -c1-200))"
